@@ -56,13 +56,8 @@ def nonnull_labels(test, key):
     is known to be not None / truthy."""
     out = set()
     if isinstance(test, ast.UnaryOp) and isinstance(test.op, ast.Not):
-        inner = nonnull_labels(test.operand, key)
-        # not (x) : x truthy on False edge
-        if norm(test.operand) == key:
-            return {False}
-        # not (x is None) => True edge non-null
-        flipped = null_labels(test.operand, key)
-        return set(flipped)
+        # the True edge of `not e` is the False edge of e
+        return {not lab for lab in nonnull_labels(test.operand, key)}
     if isinstance(test, ast.Compare) and len(test.ops) == 1 and norm(test.left) == key:
         c = test.comparators[0]
         if isinstance(c, ast.Constant) and c.value is None:
